@@ -443,6 +443,19 @@ func (st *rstate) loop(w *strings.Builder, n gen.For) (ctl, Status) {
 
 var reTableTag = regexp.MustCompile(`<(tr|td)(\s[^<>]*)?>`)
 
-// NormTable strips attributes from <tr ...> and <td ...> so that only the
-// row/cell structure is compared.
-func NormTable(s string) string { return reTableTag.ReplaceAllString(s, "<$1>") }
+var (
+	reRowSpace  = regexp.MustCompile(`\s*(</?tr>)\s*`)
+	reCellSpace = regexp.MustCompile(`(</td>)\s+(<td>)`)
+)
+
+// NormTable reduces tablerow markup to the stated structure (each item in a td, every cols items in a
+// tr): attributes of <tr ...> and <td ...> are dropped, and so is whitespace that merely separates
+// rows and cells (around <tr> and </tr>, between </td> and <td>), which the statement leaves open.
+func NormTable(s string) string {
+	s = reTableTag.ReplaceAllString(s, "<$1>")
+	if !strings.Contains(s, "<tr>") {
+		return s
+	}
+	s = reRowSpace.ReplaceAllString(s, "$1")
+	return reCellSpace.ReplaceAllString(s, "$1$2")
+}
